@@ -21,7 +21,11 @@
   UTF-8 (the model's terms are rune lists). `unsure` and a genuine error (`url.Parse` fails) both reach the
   statement machine as `none`: the run ends with `err:resolve`, and the harness counts a resolver-caused skip
   when the implementation went on. `ttld.resolve` distinguishes them (`error` / `unsure`).
-  Measured with go/cmd/c05ttl -prop C05 and go/cmd/c08, quick tier, seed 1: see DESIGN / the part report.
+  Measured (quick tier, seed 1, same inputs before/after, 0 failures both times): resolver-caused skips
+  go/cmd/c08 12552 -> 266 of 250906 compared documents; go/cmd/c05ttl -prop C05 2717 -> 396 of 84051 (and
+  `ttld.resolve` answers `unsure` on 255 instead of 1015 of 2500 pairs); go/cmd/c16d 1012 -> 56 of 11490.
+  What is left: results whose ParsedIRI does not re-parse to itself (opaque reclassification `urn:/x`, empty
+  base path + relative reference, sticky '#'), ill-formed UTF-8 inside an IRI.
 -/
 import RdfModel.Driver.Wire
 import RdfModel.Model.TurtleDoc
